@@ -19,7 +19,11 @@
          was NOT a victim of a shutdown.
    All other events pass.  (`C04_declarative` below states exactly this, position by position.)
    The liveness half of the property text ("it does return", "never waits forever") is not a property of
-   finite accepted histories; it is covered by the monitor-only test of checks/C04.py (quiescence).
+   finite accepted histories.  Its model-level core is proved below as two ENABLEDNESS theorems
+   (C04_run_can_return, C04_waiter_released: in every reachable state the step in question is possible);
+   they are NOT a fairness or termination proof - that every process does reach a terminal state, and that the
+   scheduler eventually runs the enabled step, is covered only by the monitor-only test of checks/C04.py
+   (quiescence event of the controlled-scheduling harness).
 
    History: the first version needed two side conditions.  (b) "no API shutdown between exit_trigger and
    exitCodeOnce.Do" went away when the observer made "project exit code fixed" observable; (a) "every EBegin
@@ -27,7 +31,7 @@
    is accepted only after do_spawn (waitGroup.Add) of i. *)
 From Coq Require Import List ZArith NArith Bool.
 From PC.Base Require Import Assoc.
-From PC.Sup Require Import Model Monitors Check RelC04.
+From PC.Sup Require Import Model Monitors Check LemC04l RelC04 EnC04.
 Import ListNotations.
 
 (* for ALL configurations (any dependency graph, policies, exit_on_* settings, several triggers),
@@ -49,6 +53,35 @@ Theorem C04_declarative : forall cs ord evs s,
                  (snd t = false \/ o_api_sd_first o = true \/ forall t', In t' (o_triggers o) -> snd t' = true)).
 Proof. exact C04_declarative_lemma. Qed.
 Print Assumptions C04_declarative.
+
+(* ---- enabledness (the model-level core of the liveness half; no fairness, no termination) ------------- *)
+
+(* Run() is not blocked: in every state s reached by an accepted history, if the Run() call of thread th is in
+   its waitGroup.Wait() (ARunWait) and nothing of the wait group is outstanding - wg_quiet s: no instance is
+   spawned-but-not-begun (stage 3), and every goroutine that began is at inst_exit or beyond (pc IWgDone/IGone)
+   with its waitGroup.Done() executed (no RWgDone pending) - then the event "Run() returns the project exit
+   code" is accepted in s.  (wg_quiet talks about instances only; that the counter wg is then 0 is the content.) *)
+Theorem C04_run_can_return : forall cs ord evs s th,
+  accept (init cs ord) evs = Some s ->
+  apc (get_thread s th) = ARunWait -> wg_quiet s ->
+  exists s', step s (th, ERunReturn (proj_code s)) = Some s'.
+Proof. exact run_can_return. Qed.
+Print Assumptions C04_run_can_return.
+
+(* A waiter is released: in every reachable state, if the goroutine th of instance i waits for its dependency k
+   on the instance j (pc IBlocked k c j todo) and j has gone through onProcessEnd (l_done: Completed, Error,
+   Skipped, or stopped while pending), then th can take its dep_done step - WHATEVER the condition c
+   (completed, completed_successfully, healthy, log_ready, started): an ended instance has released every
+   latch a dependent can wait on (invariant R6: l_done -> ready, run-context and log-ready latches released,
+   because onProcessEnd releases them before it sets done).  [step] performs the waiting thread's own pending
+   release first (flush convention of the model); latches only go up, so this cannot block the step. *)
+Theorem C04_waiter_released : forall cs ord evs s th i x k c j todo y,
+  accept (init cs ord) evs = Some s ->
+  get th (thinst s) = Some i -> get i (insts s) = Some x -> pc x = IBlocked k c j todo ->
+  get j (insts s) = Some y -> l_done y = true ->
+  exists ok s', step s (th, EDepDone k ok) = Some s'.
+Proof. exact waiter_released. Qed.
+Print Assumptions C04_waiter_released.
 
 (* Regression for the former model looseness "EBegin without ESpawn": the 10-event history in which a
    goroutine that was never added to the wait group still had its command alive at Run()'s return is
@@ -95,3 +128,46 @@ Example C04_nonvacuous :
   accepted_hist ex_conf false ex_evs = true /\
   length ex_evs = 66 /\ In (1%N, ERunReturn 1%Z) ex_evs /\ holds_C04 ex_conf ex_evs = true.
 Proof. repeat split; try (vm_compute; reflexivity). vm_compute. tauto. Qed.
+
+(* the two enabledness theorems instantiated on concrete reachable states *)
+(* (1) the state of the recorded history above just before its Run() return (first 55 events) *)
+Example C04_run_can_return_ex :
+  exists s s', accept (init ex_conf false) (firstn 55 ex_evs) = Some s /\ wg_quiet s /\
+               step s (1%N, ERunReturn 1%Z) = Some s'.
+Proof.
+  destruct (accept (init ex_conf false) (firstn 55 ex_evs)) as [s|] eqn:E; [|vm_compute in E; discriminate].
+  pose proof E as E0. vm_compute in E0. injection E0 as E0.
+  assert (Hq : wg_quiet s) by (apply wg_quiet_b_spec; subst s; vm_compute; reflexivity).
+  assert (Ha : apc (get_thread s 1%N) = ARunWait) by (subst s; vm_compute; reflexivity).
+  assert (Hc : proj_code s = 1%Z) by (subst s; vm_compute; reflexivity).
+  destruct (C04_run_can_return _ _ _ _ _ E Ha Hq) as (s' & Hs'). rewrite Hc in Hs'. eauto.
+Qed.
+
+(* (2) B waits for A to become healthy (A has no readiness probe); A runs, exits and ends: B's dep_done is enabled *)
+Definition w_conf : amap pconf :=
+  [(0%N, mkConf [] PNo 0 0%N false false false false false false false);
+   (1%N, mkConf [(0%N, CHealthy)] PNo 0 0%N false false false false false false false)].
+Definition w_evs : list (tid * event) :=
+ [(1%N, EApiBegin OpRun);
+  (1%N, ENewInst 1%N 0%N); (1%N, EState 1%N SPending); (1%N, ERegAdd 1%N 0%N); (1%N, ESpawn 1%N 0%N);
+  (1%N, ENewInst 2%N 1%N); (1%N, EState 2%N SPending); (1%N, ERegAdd 2%N 1%N); (1%N, ESpawn 2%N 1%N);
+  (1%N, ERunSpawned); (2%N, EBegin 1%N); (3%N, EBegin 2%N);
+  (3%N, EDoneGet 0%N None); (3%N, ELookupMid 0%N); (3%N, ERegGet 0%N (Some 1%N)); (3%N, EDepWait 0%N (Some 1%N));
+  (2%N, ERunChecked false); (2%N, EStarted); (2%N, EState 1%N SRunning); (2%N, ELaunch true);
+  (0%N, ECmdExit 1%N 0%Z); (2%N, EWaitReturn 0%Z); (2%N, EExitCode 0%Z); (2%N, ERestartDecision false);
+  (2%N, EProcEnd 1%N SCompleted); (2%N, EState 1%N SCompleted)].
+Example C04_waiter_released_ex :
+  exists s ok s', accept (init w_conf false) w_evs = Some s /\
+                  option_map pc (get 2%N (insts s)) = Some (IBlocked 0%N CHealthy 1%N []) /\
+                  step s (3%N, EDepDone 0%N ok) = Some s'.
+Proof.
+  destruct (accept (init w_conf false) w_evs) as [s|] eqn:E; [|vm_compute in E; discriminate].
+  pose proof E as E0. vm_compute in E0. injection E0 as E0.
+  destruct (get 2%N (insts s)) as [x|] eqn:Hx; [|subst s; vm_compute in Hx; discriminate].
+  destruct (get 1%N (insts s)) as [y|] eqn:Hy; [|subst s; vm_compute in Hy; discriminate].
+  assert (Hpc : pc x = IBlocked 0%N CHealthy 1%N []) by (subst s; vm_compute in Hx; injection Hx as <-; reflexivity).
+  assert (Hd : l_done y = true) by (subst s; vm_compute in Hy; injection Hy as <-; reflexivity).
+  assert (Ht : get 3%N (thinst s) = Some 2%N) by (subst s; vm_compute; reflexivity).
+  destruct (C04_waiter_released _ _ _ _ _ _ _ _ _ _ _ _ E Ht Hx Hpc Hy Hd) as (ok & s' & Hs').
+  exists s, ok, s'. split; [reflexivity|split; [rewrite Hx; cbn; now rewrite Hpc|exact Hs']].
+Qed.
